@@ -186,3 +186,11 @@ package container
 //@   property C37
 //@   ensures [verb_asserted_for_every_operation] err == nil ==> v2VerbAsserted()
 //@   ensures [request_witnessed_by_a_subject_of_the_token] err == nil ==> v2RequestWitnessedBySubject()
+
+// The walk over the container's attributes (a range-over-func loop; its body is the closure
+// checkPutContainer$1) is cut short only by rejecting the container: the body asks for the
+// next attribute (returns true) unless it has stored an error as the function's result -
+// every attribute gets examined before the container is approved.
+//@ func (*Processor).checkPutContainer$1
+//@   property C37
+//@   ensures [walk_cut_short_only_by_a_rejection] !result ==> outerresult(0) != nil
